@@ -1,9 +1,21 @@
 package h
 
+// C19 — Standard-library wrappers compute what the wrapped Go functions compute.
+//
+// The expected tables below are written from the module documentation
+// (docs/stdlib-text.md, -math.md, -base64.md, -hex.md, -times.md, -enum.md and
+// the conversion table of docs/runtime-types.md), not from the implementation
+// tables: name -> Go function named in the documentation, one letter per
+// documented parameter giving its coercion class, and the result wrapping.
+
 import (
+	"encoding/base64"
 	"encoding/hex"
+	"errors"
 	"math"
 	"regexp"
+	"strconv"
+	"strings"
 	"time"
 
 	"github.com/d5/tengo/v2"
@@ -11,112 +23,1908 @@ import (
 	"verif/h/vf"
 )
 
-func C19_SpikeRe() {
-	m := stdlib.BuiltinModules["text"]
-	f := m["re_match"].(*tengo.UserFunction)
-	pats := []string{"a+", "(a)(b)?", "("}
-	p := pats[vf.Choice("p", len(pats))]
-	s := vf.String("s", 2)
-	got, err := f.Value(&tengo.String{Value: p}, &tengo.String{Value: s})
-	vf.Assert(err == nil, "no err")
-	want, werr := regexp.MatchString(p, s)
-	if werr != nil {
-		e, ok := got.(*tengo.Error)
-		vf.Assert(ok, "re_match error")
-		vf.Assert(e.Value.(*tengo.String).Value == werr.Error(), "re_match error text")
-	} else {
-		vf.Assert(vf.Iff(got == tengo.Object(tengo.TrueValue), want), "re_match")
-	}
-	vf.Reach("spike")
+// ---------------------------------------------------------------------------
+// common machinery
+
+// x19arg is one argument after the documented coercion.
+type x19arg struct {
+	s  string
+	i  int64
+	f  float64
+	b  bool
+	t  time.Time
+	y  []byte
+	ss []string
 }
 
-var spikeF1 = []struct {
+// x19spec is one row of an expected table.
+//
+// sig has one letter per documented parameter:
+//
+//	S string(compatible): every type except undefined (runtime-types.md, column String)
+//	I int(compatible): int, float (truncated), char, bool (1/0), string (strconv)
+//	F float(compatible): float, int, string (strconv)
+//	T time(compatible): time, int (time.Unix(v, 0))
+//	Y bytes(compatible): bytes, string
+//	A array or immutable array of string(compatible) elements
+//	s, i, f, b: documented as string/int/float/bool; the exact type must be
+//	   accepted, a type with no conversion to it must be rejected, and a type
+//	   that merely converts to it may be either converted or rejected (the
+//	   module documentation does not say which; stated bound)
+//
+// opt is the number of trailing optional parameters.
+type x19spec struct {
+	name string
+	sig  string
+	opt  int
+	gen  func() []tengo.Object                                   // right-typed (mostly symbolic) arguments
+	chk  func(n string, a []x19arg, got tengo.Object, err error) // value check against the documented operation
+	smp  func() []tengo.Object                                   // concrete in-domain sample (nil: by class)
+	loc  bool                                                    // last S parameter names a time zone: only keep-content coercions
+}
+
+func x19S(s string) tengo.Object  { return &tengo.String{Value: s} }
+func x19I(i int64) tengo.Object   { return &tengo.Int{Value: i} }
+func x19F(f float64) tengo.Object { return &tengo.Float{Value: f} }
+func x19Y(b []byte) tengo.Object  { return &tengo.Bytes{Value: b} }
+func x19T(t time.Time) tengo.Object {
+	return &tengo.Time{Value: t}
+}
+func x19B(b bool) tengo.Object {
+	if b {
+		return tengo.TrueValue
+	}
+	return tengo.FalseValue
+}
+func x19Strs(ss []string) tengo.Object {
+	arr := &tengo.Array{}
+	for _, s := range ss {
+		arr.Value = append(arr.Value, x19S(s))
+	}
+	return arr
+}
+
+// x19sym is a symbolic string of 0..max bytes (max+1 in the thorough tier);
+// ascii restricts the bytes to 7 bit in the quick tier (functions that walk
+// the unicode tables / decode UTF-8).
+func x19sym(id string, max int, ascii bool) string {
+	if Tier() > 0 {
+		max++
+	}
+	n := vf.Choice(id+".len", max+1)
+	s := vf.String(id, n)
+	if ascii && Tier() == 0 {
+		for k := 0; k < n; k++ {
+			vf.Assume(s[k] < 0x80)
+		}
+	}
+	return s
+}
+
+func x19pickS(id string, set []string) string { return set[vf.Choice(id, len(set))] }
+func x19pickI(id string, set []int64) int64   { return set[vf.Choice(id, len(set))] }
+
+// acceptance levels of x19coerce
+const (
+	x19Reject = 0
+	x19Either = 1
+	x19Accept = 2
+)
+
+func x19toStr(o tengo.Object) (string, bool) {
+	switch v := o.(type) {
+	case *tengo.Undefined:
+		return "", false
+	case *tengo.String:
+		return v.Value, true
+	case *tengo.Int:
+		return strconv.FormatInt(v.Value, 10), true
+	case *tengo.Bool:
+		if v == tengo.TrueValue {
+			return "true", true
+		}
+		return "false", true
+	case *tengo.Char:
+		return string(v.Value), true
+	case *tengo.Bytes:
+		return string(v.Value), true
+	}
+	return o.String(), true // "[...]", "{...}", "error: ...", String(): only the acceptance is used
+}
+
+func x19toInt(o tengo.Object) (int64, bool) {
+	switch v := o.(type) {
+	case *tengo.Int:
+		return v.Value, true
+	case *tengo.Float:
+		return int64(v.Value), true
+	case *tengo.Char:
+		return int64(v.Value), true
+	case *tengo.Bool:
+		if v == tengo.TrueValue {
+			return 1, true
+		}
+		return 0, true
+	case *tengo.String:
+		n, err := strconv.ParseInt(v.Value, 10, 64)
+		return n, err == nil
+	}
+	return 0, false
+}
+
+func x19toFloat(o tengo.Object) (float64, bool) {
+	switch v := o.(type) {
+	case *tengo.Float:
+		return v.Value, true
+	case *tengo.Int:
+		return float64(v.Value), true
+	case *tengo.String:
+		f, err := strconv.ParseFloat(v.Value, 64)
+		return f, err == nil
+	}
+	return 0, false
+}
+
+// x19coerce applies the documented coercion of class c to o.
+func x19coerce(c byte, o tengo.Object) (a x19arg, acc int) {
+	ok := false
+	switch c {
+	case 'S':
+		a.s, ok = x19toStr(o)
+	case 's':
+		a.s, ok = x19toStr(o)
+		if _, exact := o.(*tengo.String); ok && !exact {
+			return a, x19Either
+		}
+	case 'I':
+		a.i, ok = x19toInt(o)
+	case 'i':
+		a.i, ok = x19toInt(o)
+		if _, exact := o.(*tengo.Int); ok && !exact {
+			return a, x19Either
+		}
+	case 'F':
+		a.f, ok = x19toFloat(o)
+	case 'f':
+		a.f, ok = x19toFloat(o)
+		if _, exact := o.(*tengo.Float); ok && !exact {
+			return a, x19Either
+		}
+	case 'b':
+		if v, exact := o.(*tengo.Bool); exact {
+			a.b, ok = v == tengo.TrueValue, true
+		} else {
+			return a, x19Either // every type converts to bool (!IsFalsy)
+		}
+	case 'T':
+		switch v := o.(type) {
+		case *tengo.Time:
+			a.t, ok = v.Value, true
+		case *tengo.Int:
+			a.t, ok = time.Unix(v.Value, 0), true
+		}
+	case 'Y':
+		switch v := o.(type) {
+		case *tengo.Bytes:
+			a.y, ok = v.Value, true
+		case *tengo.String:
+			a.y, ok = []byte(v.Value), true
+		}
+	case 'A':
+		var es []tengo.Object
+		switch v := o.(type) {
+		case *tengo.Array:
+			es, ok = v.Value, true
+		case *tengo.ImmutableArray:
+			es, ok = v.Value, true
+		}
+		for _, e := range es {
+			s, sok := x19toStr(e)
+			if !sok {
+				ok = false
+			}
+			a.ss = append(a.ss, s)
+		}
+	default:
+		panic("x19coerce: bad class")
+	}
+	if ok {
+		return a, x19Accept
+	}
+	return a, x19Reject
+}
+
+func x19fn(mod, name string) tengo.CallableFunc {
+	m, ok := stdlib.BuiltinModules[mod]
+	vf.Assert(ok, "module "+mod+" exists")
+	o, ok := m[name]
+	vf.Assert(ok, mod+"."+name+": the documented function is provided by the module")
+	uf, ok := o.(*tengo.UserFunction)
+	vf.Assert(ok, mod+"."+name+": the documented function is a function")
+	return uf.Value
+}
+
+func x19call(n string, f tengo.CallableFunc, args []tengo.Object) (got tengo.Object, err error) {
+	res := vf.Guard(func() { got, err = f(args...) }, 4000000)
+	if res != 0 {
+		vf.Note(n + ": " + vf.LastGuard())
+	}
+	vf.Assert(res == 0, n+": the call returns (no panic, no hang)")
+	return
+}
+
+// x19want is the common value check: werr != nil means the documented Go
+// function failed, which must surface as an error value carrying the Go
+// error text (the convention of every "=> T/error" signature).
+func x19want(n string, want tengo.Object, werr error, got tengo.Object, err error) {
+	if werr != nil {
+		vf.Assert(err == nil, n+": a Go error is surfaced as an error value, not as a run-time error")
+		e, ok := got.(*tengo.Error)
+		vf.Assert(ok, n+": a Go error is surfaced as an error value")
+		s, ok := e.Value.(*tengo.String)
+		vf.Assert(ok && s.Value == werr.Error(), n+": the error value carries the Go error text")
+		return
+	}
+	vf.Assert(err == nil, n+": no run-time error for right-typed arguments in the Go function's domain")
+	vf.Assert(got != nil && Same(got, want), n+": result equals the result of the documented Go function")
+}
+
+// x19eq builds a value check from the documented operation.
+func x19eq(f func(a []x19arg) (tengo.Object, error)) func(string, []x19arg, tengo.Object, error) {
+	return func(n string, a []x19arg, got tengo.Object, err error) {
+		want, werr := f(a)
+		x19want(n, want, werr, got, err)
+	}
+}
+
+func x19coerceAll(n string, e *x19spec, args []tengo.Object) []x19arg {
+	var a []x19arg
+	for k, o := range args {
+		v, acc := x19coerce(e.sig[k], o)
+		vf.Assert(acc == x19Accept, n+": harness argument is right-typed")
+		a = append(a, v)
+	}
+	return a
+}
+
+// x19value: one table row, right-typed arguments, result against the documented operation.
+func x19value(mod string, tab []x19spec) {
+	e := &tab[vf.Choice("fn", len(tab))]
+	n := mod + "." + e.name
+	f := x19fn(mod, e.name)
+	args := e.gen()
+	a := x19coerceAll(n, e, args)
+	got, err := x19call(n, f, args)
+	e.chk(n, a, got, err)
+}
+
+func x19classSample(c byte) tengo.Object {
+	switch c {
+	case 'S', 's':
+		return x19S("ab")
+	case 'I', 'i':
+		return x19I(1)
+	case 'F', 'f':
+		return x19F(1.5)
+	case 'b':
+		return tengo.TrueValue
+	case 'T':
+		return x19T(time.Unix(1700000000, 5))
+	case 'Y':
+		return x19Y([]byte("ab"))
+	case 'A':
+		return x19Strs([]string{"a", "b"})
+	}
+	panic("x19classSample")
+}
+
+func x19sample(e *x19spec) []tengo.Object {
+	if e.smp != nil {
+		return e.smp()
+	}
+	var out []tengo.Object
+	for k := 0; k < len(e.sig); k++ {
+		out = append(out, x19classSample(e.sig[k]))
+	}
+	return out
+}
+
+func x19isArgType(err error) bool {
+	_, ok := err.(tengo.ErrInvalidArgumentType)
+	return ok
+}
+
+// x19args: wrong argument counts are ErrWrongNumArguments; an argument of a
+// type the documented coercion does not accept, in any position, is
+// ErrInvalidArgumentType.
+func x19args(mod string, tab []x19spec) {
+	e := &tab[vf.Choice("fn", len(tab))]
+	n := mod + "." + e.name
+	f := x19fn(mod, e.name)
+	smp := x19sample(e)
+	np := len(e.sig)
+	vf.Assert(len(smp) == np, n+": harness sample has one value per documented parameter")
+	if vf.Choice("mode", 2) == 0 {
+		cnt := vf.Choice("count", np+2)
+		if cnt >= np-e.opt && cnt <= np {
+			vf.Stop()
+		}
+		var args []tengo.Object
+		for k := 0; k < cnt; k++ {
+			if k < np {
+				args = append(args, smp[k])
+			} else {
+				args = append(args, x19S("zz"))
+			}
+		}
+		_, err := x19call(n, f, args)
+		vf.Assert(err != nil && errors.Is(err, tengo.ErrWrongNumArguments), n+": a wrong argument count is ErrWrongNumArguments")
+		vf.Reach("count")
+		return
+	}
+	if np == 0 {
+		vf.Stop()
+	}
+	k := vf.Choice("pos", np)
+	t := vf.Choice("type", NTypes+1)
+	var o tengo.Object
+	if t < NTypes {
+		o = concreteSample(t)
+	} else {
+		o = &tengo.Array{Value: []tengo.Object{x19S("a"), tengo.UndefinedValue}}
+	}
+	_, acc := x19coerce(e.sig[k], o)
+	if acc != x19Reject {
+		vf.Stop() // accepted types: x19coerced
+	}
+	args := append([]tengo.Object{}, smp...)
+	args[k] = o
+	_, err := x19call(n, f, args)
+	vf.Assert(err != nil && x19isArgType(err), n+": an argument of a type with no documented conversion is ErrInvalidArgumentType")
+	vf.Reach("type")
+}
+
+// x19coerced: every position of every function, the sample argument replaced
+// by a value of another type that the documented coercion accepts: the result
+// is the documented operation on the coerced values.
+func x19coerced(mod string, tab []x19spec) {
+	e := &tab[vf.Choice("fn", len(tab))]
+	n := mod + "." + e.name
+	f := x19fn(mod, e.name)
+	args := x19sample(e)
+	np := len(e.sig)
+	if np == 0 {
+		vf.Stop()
+	}
+	k := vf.Choice("pos", np)
+	alt := vf.Choice("alt", 5)
+	base, _ := x19coerce(e.sig[k], args[k])
+	var o tengo.Object
+	switch e.sig[k] {
+	case 'S':
+		last := k == np-1
+		switch {
+		case alt == 0:
+			o = x19Y([]byte(base.s))
+		case e.loc && last:
+			vf.Stop()
+		case alt == 1:
+			o = x19I(12)
+		case alt == 2:
+			o = &tengo.Char{Value: 'a'}
+		case alt == 3:
+			o = tengo.TrueValue
+		default:
+			o = x19F(1.5)
+		}
+	case 'I':
+		// alternatives that coerce to the sample's own value (keeps bases, bit
+		// sizes and counts inside the Go function's domain)
+		switch {
+		case alt == 0:
+			o = x19F(float64(base.i) + 0.5)
+			if base.i < 0 {
+				o = x19F(float64(base.i) - 0.5)
+			}
+		case alt == 1:
+			o = x19S(strconv.FormatInt(base.i, 10))
+		case alt == 2 && base.i >= 0 && base.i < 0x110000:
+			o = &tengo.Char{Value: rune(base.i)}
+		case alt == 3 && (base.i == 0 || base.i == 1):
+			o = x19B(base.i == 1)
+		default:
+			vf.Stop()
+		}
+	case 'F':
+		switch alt {
+		case 0:
+			o = x19I(3)
+		case 1:
+			o = x19S("2.5")
+		case 2:
+			o = x19S("-1e3")
+		default:
+			vf.Stop()
+		}
+	case 'T':
+		switch alt {
+		case 0:
+			o = x19I(1700000000)
+		case 1:
+			o = x19I(-1)
+		default:
+			vf.Stop()
+		}
+	case 'Y':
+		if alt != 0 {
+			vf.Stop()
+		}
+		o = x19S(string(base.y))
+	case 'A':
+		switch alt {
+		case 0:
+			o = &tengo.ImmutableArray{Value: []tengo.Object{x19S("p"), x19S("q")}}
+		case 1:
+			o = &tengo.Array{Value: []tengo.Object{x19I(7), &tengo.Char{Value: 'c'}, x19Y([]byte("y"))}}
+		default:
+			vf.Stop()
+		}
+	default:
+		vf.Stop() // strict classes: exact type only
+	}
+	args[k] = o
+	a := x19coerceAll(n, e, args)
+	got, err := x19call(n, f, args)
+	e.chk(n, a, got, err)
+}
+
+// ---------------------------------------------------------------------------
+// text
+
+func x19genSS(m1, m2 int, ascii bool) func() []tengo.Object {
+	return func() []tengo.Object {
+		return []tengo.Object{x19S(x19sym("a", m1, ascii)), x19S(x19sym("b", m2, ascii))}
+	}
+}
+
+// strings that separate the unicode case mappings and space classes
+var x19uni = []string{"ǆ", "ß", "é", "a b", "ǅa ǆ", "\xff"}
+
+// x19genS1: one string: symbolic ASCII (any byte in the thorough tier) or one
+// of the concrete non-ASCII strings.
+func x19genS1(max int) func() []tengo.Object {
+	return func() []tengo.Object {
+		k := vf.Choice("a.kind", 1+len(x19uni))
+		if k == 0 {
+			return []tengo.Object{x19S(x19sym("a", max, true))}
+		}
+		return []tengo.Object{x19S(x19uni[k-1])}
+	}
+}
+
+func x19ssB(f func(a, b string) bool) func(string, []x19arg, tengo.Object, error) {
+	return x19eq(func(a []x19arg) (tengo.Object, error) { return x19B(f(a[0].s, a[1].s)), nil })
+}
+func x19ssI(f func(a, b string) int) func(string, []x19arg, tengo.Object, error) {
+	return x19eq(func(a []x19arg) (tengo.Object, error) { return x19I(int64(f(a[0].s, a[1].s))), nil })
+}
+func x19ssS(f func(a, b string) string) func(string, []x19arg, tengo.Object, error) {
+	return x19eq(func(a []x19arg) (tengo.Object, error) { return x19S(f(a[0].s, a[1].s)), nil })
+}
+func x19sS(f func(a string) string) func(string, []x19arg, tengo.Object, error) {
+	return x19eq(func(a []x19arg) (tengo.Object, error) { return x19S(f(a[0].s)), nil })
+}
+
+var x19folds = [][2]string{{"ǆ", "ǅ"}, {"é", "É"}, {"ß", "SS"}, {"\u212a", "k"}, {"σ", "ς"}, {"a\xff", "A\xff"}, {"é", "e"}}
+
+// predicates and searches: (string, string) => bool / int
+var x19textPred = []x19spec{
+	{name: "compare", sig: "SS", gen: x19genSS(2, 2, false), chk: x19ssI(strings.Compare)},
+	{name: "contains", sig: "SS", gen: x19genSS(2, 2, false), chk: x19ssB(strings.Contains)},
+	{name: "contains_any", sig: "SS", gen: x19genSS(2, 2, true), chk: x19ssB(strings.ContainsAny)},
+	{name: "count", sig: "SS", gen: x19genSS(2, 1, true), chk: x19ssI(strings.Count)},
+	// (case folding of arbitrary multi-byte sequences explodes the path count:
+	// symbolic ASCII in both tiers plus concrete non-ASCII pairs)
+	{name: "equal_fold", sig: "SS",
+		gen: func() []tengo.Object {
+			k := vf.Choice("a.kind", 1+len(x19folds))
+			if k > 0 {
+				return []tengo.Object{x19S(x19folds[k-1][0]), x19S(x19folds[k-1][1])}
+			}
+			a, b := x19sym("a", 2, false), x19sym("b", 2, false)
+			for i := 0; i < len(a); i++ {
+				vf.Assume(a[i] < 0x80)
+			}
+			for i := 0; i < len(b); i++ {
+				vf.Assume(b[i] < 0x80)
+			}
+			return []tengo.Object{x19S(a), x19S(b)}
+		},
+		chk: x19ssB(strings.EqualFold)},
+	{name: "has_prefix", sig: "SS", gen: x19genSS(2, 2, false), chk: x19ssB(strings.HasPrefix)},
+	{name: "has_suffix", sig: "SS", gen: x19genSS(2, 2, false), chk: x19ssB(strings.HasSuffix)},
+	{name: "index", sig: "SS", gen: x19genSS(2, 2, false), chk: x19ssI(strings.Index)},
+	{name: "index_any", sig: "SS", gen: x19genSS(2, 2, true), chk: x19ssI(strings.IndexAny)},
+	{name: "last_index", sig: "SS", gen: x19genSS(2, 2, false), chk: x19ssI(strings.LastIndex)},
+	{name: "last_index_any", sig: "SS", gen: x19genSS(2, 2, true), chk: x19ssI(strings.LastIndexAny)},
+}
+
+var x19splitN = []int64{-1, 0, 1, 2}
+
+func x19genSSI(m1, m2 int, set []int64) func() []tengo.Object {
+	return func() []tengo.Object {
+		return []tengo.Object{x19S(x19sym("a", m1, true)), x19S(x19sym("b", m2, true)), x19I(x19pickI("n", set))}
+	}
+}
+
+// x19pad is the documented padding: s is returned when it is already pad_len
+// long (or nothing can be padded with); otherwise the result is pad_len bytes
+// long, keeps s at the far end and fills the rest with repetitions of
+// pad_with (" " by default). Which end of the repetition is cut when it does
+// not divide evenly is not documented: for pad_left either end is accepted,
+// for pad_right the repetition starts right after s.
+func x19pad(left bool) func(string, []x19arg, tengo.Object, error) {
+	return func(n string, a []x19arg, got tengo.Object, err error) {
+		s, l, p := a[0].s, int(a[1].i), " "
+		if len(a) > 2 {
+			p = a[2].s
+		}
+		vf.Assert(err == nil, n+": no run-time error for right-typed arguments")
+		g, ok := got.(*tengo.String)
+		vf.Assert(ok, n+": result is a string")
+		if len(s) >= l || len(p) == 0 {
+			vf.Assert(g.Value == s, n+": s is returned unchanged when it needs no padding")
+			return
+		}
+		vf.Assert(len(g.Value) == l, n+": result is pad_len bytes long")
+		fill := l - len(s)
+		reps := strings.Repeat(p, fill/len(p)+1)
+		if left {
+			vf.Assert(g.Value[fill:] == s, n+": result ends with s")
+			pad := g.Value[:fill]
+			vf.Assert(pad == reps[:fill] || pad == reps[len(reps)-fill:], n+": the padding is a repetition of pad_with")
+		} else {
+			vf.Assert(g.Value[:len(s)] == s, n+": result starts with s")
+			vf.Assert(g.Value[len(s):] == reps[:fill], n+": the padding is a repetition of pad_with")
+		}
+	}
+}
+
+func x19genPad() []tengo.Object {
+	args := []tengo.Object{x19S(x19sym("a", 1, false)), x19I(int64(vf.Choice("padlen", 5)))}
+	if vf.Choice("withpad", 2) == 1 {
+		args = append(args, x19S(x19sym("p", 2, false)))
+	}
+	return args
+}
+
+func x19strsObj(ss []string) (tengo.Object, error) { return x19Strs(ss), nil }
+
+// transformations: strings in, string / [string] out
+var x19textXform = []x19spec{
+	{name: "fields", sig: "S", gen: x19genS1(2), chk: x19eq(func(a []x19arg) (tengo.Object, error) { return x19strsObj(strings.Fields(a[0].s)) })},
+	{name: "join", sig: "AS",
+		gen: func() []tengo.Object {
+			n := vf.Choice("arr.len", W()+1)
+			var es []tengo.Object
+			for k := 0; k < n; k++ {
+				es = append(es, x19S(vf.String("e"+strconv.Itoa(k), 1)))
+			}
+			var arr tengo.Object = &tengo.Array{Value: es}
+			if vf.Choice("arr.imm", 2) == 1 {
+				arr = &tengo.ImmutableArray{Value: es}
+			}
+			return []tengo.Object{arr, x19S(x19sym("b", 1, false))}
+		},
+		chk: x19eq(func(a []x19arg) (tengo.Object, error) { return x19S(strings.Join(a[0].ss, a[1].s)), nil })},
+	{name: "repeat", sig: "SI",
+		gen: func() []tengo.Object {
+			return []tengo.Object{x19S(x19sym("a", 2, false)), x19I(int64(vf.Choice("count", 4)))}
+		},
+		chk: x19eq(func(a []x19arg) (tengo.Object, error) { return x19S(strings.Repeat(a[0].s, int(a[1].i))), nil })},
+	{name: "replace", sig: "SSSI",
+		gen: func() []tengo.Object {
+			return []tengo.Object{x19S(x19sym("a", 2, true)), x19S(x19sym("b", 1, true)), x19S(x19sym("c", 1, true)), x19I(x19pickI("n", x19splitN))}
+		},
+		chk: x19eq(func(a []x19arg) (tengo.Object, error) {
+			return x19S(strings.Replace(a[0].s, a[1].s, a[2].s, int(a[3].i))), nil
+		})},
+	// substr(s, lower, upper): s[lower:upper] for 0 <= lower <= upper <= len(s)
+	// (the implementation also accepts two arguments; that form is undocumented
+	// and only excluded from the wrong-count check)
+	{name: "substr", sig: "SII", opt: 1,
+		gen: func() []tengo.Object {
+			s := x19sym("a", 2, false)
+			hi := vf.Choice("hi", len(s)+1)
+			lo := vf.Choice("lo", hi+1)
+			return []tengo.Object{x19S(s), x19I(int64(lo)), x19I(int64(hi))}
+		},
+		chk: x19eq(func(a []x19arg) (tengo.Object, error) {
+			lo, hi := a[1].i, int64(len(a[0].s))
+			if len(a) > 2 {
+				hi = a[2].i
+			}
+			if lo < 0 || lo > hi || hi > int64(len(a[0].s)) {
+				vf.Stop() // outside the documented domain
+			}
+			return x19S(a[0].s[lo:hi]), nil
+		}),
+		smp: func() []tengo.Object { return []tengo.Object{x19S("abc"), x19I(1), x19I(2)} }},
+	{name: "split", sig: "SS", gen: x19genSS(2, 1, true), chk: x19eq(func(a []x19arg) (tengo.Object, error) { return x19strsObj(strings.Split(a[0].s, a[1].s)) })},
+	{name: "split_after", sig: "SS", gen: x19genSS(2, 1, true), chk: x19eq(func(a []x19arg) (tengo.Object, error) { return x19strsObj(strings.SplitAfter(a[0].s, a[1].s)) })},
+	{name: "split_after_n", sig: "SSI", gen: x19genSSI(2, 1, x19splitN), chk: x19eq(func(a []x19arg) (tengo.Object, error) {
+		return x19strsObj(strings.SplitAfterN(a[0].s, a[1].s, int(a[2].i)))
+	})},
+	{name: "split_n", sig: "SSI", gen: x19genSSI(2, 1, x19splitN), chk: x19eq(func(a []x19arg) (tengo.Object, error) {
+		return x19strsObj(strings.SplitN(a[0].s, a[1].s, int(a[2].i)))
+	})},
+	{name: "title", sig: "S", gen: x19genS1(2), chk: x19sS(strings.Title)},
+	{name: "to_lower", sig: "S", gen: x19genS1(2), chk: x19sS(strings.ToLower)},
+	{name: "to_title", sig: "S", gen: x19genS1(2), chk: x19sS(strings.ToTitle)},
+	{name: "to_upper", sig: "S", gen: x19genS1(2), chk: x19sS(strings.ToUpper)},
+	{name: "pad_left", sig: "SIS", opt: 1, gen: x19genPad, chk: x19pad(true),
+		smp: func() []tengo.Object { return []tengo.Object{x19S("ab"), x19I(5), x19S("xy")} }},
+	{name: "pad_right", sig: "SIS", opt: 1, gen: x19genPad, chk: x19pad(false),
+		smp: func() []tengo.Object { return []tengo.Object{x19S("ab"), x19I(5), x19S("xy")} }},
+	{name: "trim", sig: "SS", gen: x19genSS(2, 2, true), chk: x19ssS(strings.Trim)},
+	{name: "trim_left", sig: "SS", gen: x19genSS(2, 2, true), chk: x19ssS(strings.TrimLeft)},
+	{name: "trim_prefix", sig: "SS", gen: x19genSS(2, 2, false), chk: x19ssS(strings.TrimPrefix)},
+	{name: "trim_right", sig: "SS", gen: x19genSS(2, 2, true), chk: x19ssS(strings.TrimRight)},
+	{name: "trim_space", sig: "S", gen: x19genS1(2), chk: x19sS(strings.TrimSpace)},
+	{name: "trim_suffix", sig: "SS", gen: x19genSS(2, 2, false), chk: x19ssS(strings.TrimSuffix)},
+}
+
+var x19ints = []int64{0, 7, -1, 35, 36, -255, 9223372036854775807, -9223372036854775808}
+var x19floats = []float64{0, 1.5, -2.25, 1e21, 1e-7, 3.4028235e38}
+var x19ffmt = []string{"e", "E", "f", "g", "G", "b", "x"}
+var x19bools = []string{"true", "TRUE", "True", "T", "false", "FALSE", "False", "F", "tRUE", "yes", ""}
+var x19floatStrs = []string{"1.5", "-0", "1e400", "abc", "", "0x1p-2", "inf", "NaN", "3.4028236e38", "1_0", "1e-400", " 1"}
+var x19intStrs = []string{"0x1f", "-129", "9223372036854775808", "-9223372036854775808", "1_000", "0b101", "077", "zz", "+5"}
+var x19unq = []string{`"a"`, `'a'`, "`a`", `"\n"`, `"\x41é"`, `"a`, `a`, ``, `"\q"`, `'ab'`, `"a"b"`, "`a\r`"}
+
+// strconv
+var x19textConv = []x19spec{
+	{name: "atoi", sig: "S", gen: func() []tengo.Object { return []tengo.Object{x19S(x19sym("a", 2, false))} },
+		chk: x19eq(func(a []x19arg) (tengo.Object, error) {
+			v, err := strconv.Atoi(a[0].s)
+			return x19I(int64(v)), err
+		}),
+		smp: func() []tengo.Object { return []tengo.Object{x19S("42")} }},
+	{name: "format_bool", sig: "b", gen: func() []tengo.Object { return []tengo.Object{x19B(vf.Bool("b"))} },
+		chk: x19eq(func(a []x19arg) (tengo.Object, error) { return x19S(strconv.FormatBool(a[0].b)), nil })},
+	// rendering: concrete boundary values (decimal rendering of symbolic numbers stalls the solver)
+	{name: "format_float", sig: "fSII",
+		gen: func() []tengo.Object {
+			var f float64
+			switch k := vf.Choice("f", len(x19floats)+3); k {
+			case len(x19floats):
+				f = math.NaN()
+			case len(x19floats) + 1:
+				f = math.Inf(-1)
+			case len(x19floats) + 2:
+				f = math.Copysign(0, -1)
+			default:
+				f = x19floats[k]
+			}
+			return []tengo.Object{x19F(f), x19S(x19pickS("fmt", x19ffmt)), x19I(x19pickI("prec", []int64{-1, 0, 3})), x19I(x19pickI("bits", []int64{32, 64}))}
+		},
+		chk: x19eq(func(a []x19arg) (tengo.Object, error) {
+			return x19S(strconv.FormatFloat(a[0].f, a[1].s[0], int(a[2].i), int(a[3].i))), nil
+		}),
+		smp: func() []tengo.Object { return []tengo.Object{x19F(1.5), x19S("f"), x19I(2), x19I(64)} }},
+	{name: "format_int", sig: "iI",
+		gen: func() []tengo.Object {
+			return []tengo.Object{x19I(x19pickI("i", x19ints)), x19I(x19pickI("base", []int64{2, 8, 10, 16, 36}))}
+		},
+		chk: x19eq(func(a []x19arg) (tengo.Object, error) { return x19S(strconv.FormatInt(a[0].i, int(a[1].i))), nil }),
+		smp: func() []tengo.Object { return []tengo.Object{x19I(255), x19I(16)} }},
+	{name: "itoa", sig: "I", gen: func() []tengo.Object { return []tengo.Object{x19I(x19pickI("i", x19ints))} },
+		chk: x19eq(func(a []x19arg) (tengo.Object, error) { return x19S(strconv.FormatInt(a[0].i, 10)), nil })},
+	{name: "parse_bool", sig: "s",
+		gen: func() []tengo.Object {
+			k := vf.Choice("a.kind", 1+len(x19bools))
+			if k == 0 {
+				return []tengo.Object{x19S(x19sym("a", 1, false))}
+			}
+			return []tengo.Object{x19S(x19bools[k-1])}
+		},
+		chk: x19eq(func(a []x19arg) (tengo.Object, error) {
+			v, err := strconv.ParseBool(a[0].s)
+			return x19B(v), err
+		}),
+		smp: func() []tengo.Object { return []tengo.Object{x19S("true")} }},
+	{name: "parse_float", sig: "sI",
+		gen: func() []tengo.Object {
+			k := vf.Choice("a.kind", 1+len(x19floatStrs))
+			s := ""
+			if k == 0 {
+				s = x19sym("a", 1, false)
+			} else {
+				s = x19floatStrs[k-1]
+			}
+			if k == 0 {
+				// (the engine has no symbolic float32 rounding: 64 bit only)
+				return []tengo.Object{x19S(s), x19I(64)}
+			}
+			return []tengo.Object{x19S(s), x19I(x19pickI("bits", []int64{32, 64}))}
+		},
+		chk: x19eq(func(a []x19arg) (tengo.Object, error) {
+			v, err := strconv.ParseFloat(a[0].s, int(a[1].i))
+			return x19F(v), err
+		}),
+		smp: func() []tengo.Object { return []tengo.Object{x19S("1.5"), x19I(64)} }},
+	{name: "parse_int", sig: "sII",
+		gen: func() []tengo.Object {
+			k := vf.Choice("a.kind", 1+len(x19intStrs))
+			s := ""
+			if k == 0 {
+				s = x19sym("a", 1, false)
+			} else {
+				s = x19intStrs[k-1]
+			}
+			bb := [][2]int64{{0, 0}, {10, 64}, {16, 8}, {2, 64}, {36, 0}}
+			if k > 0 {
+				bb = append(bb, [2]int64{10, 8}, [2]int64{0, 64}, [2]int64{8, 16}, [2]int64{1, 0}, [2]int64{10, 65})
+			}
+			c := bb[vf.Choice("basebits", len(bb))]
+			return []tengo.Object{x19S(s), x19I(c[0]), x19I(c[1])}
+		},
+		chk: x19eq(func(a []x19arg) (tengo.Object, error) {
+			v, err := strconv.ParseInt(a[0].s, int(a[1].i), int(a[2].i))
+			return x19I(v), err
+		}),
+		smp: func() []tengo.Object { return []tengo.Object{x19S("42"), x19I(10), x19I(64)} }},
+	{name: "quote", sig: "S", gen: x19genS1(2), chk: x19sS(strconv.Quote)},
+	{name: "unquote", sig: "S",
+		gen: func() []tengo.Object {
+			k := vf.Choice("a.kind", 1+len(x19unq))
+			if k == 0 {
+				return []tengo.Object{x19S(`"` + x19sym("a", 1, true) + `"`)}
+			}
+			return []tengo.Object{x19S(x19unq[k-1])}
+		},
+		chk: x19eq(func(a []x19arg) (tengo.Object, error) {
+			v, err := strconv.Unquote(a[0].s)
+			return x19S(v), err
+		}),
+		smp: func() []tengo.Object { return []tengo.Object{x19S(`"ab"`)} }},
+}
+
+// regular expressions: concrete patterns (two of them invalid), symbolic text
+var x19pats = []string{"a", "a+", "(a)(b)?", "", "^a|b$", "[ab]", "(", "[a"}
+var x19repls = []string{"", "x", "$1", "<$0>", "${1}y"}
+
+func x19genRe(withText bool, third func() tengo.Object) func() []tengo.Object {
+	return func() []tengo.Object {
+		args := []tengo.Object{x19S(x19pickS("pat", x19pats))}
+		if withText {
+			args = append(args, x19S(x19sym("t", 2, true)))
+		}
+		if third != nil {
+			if o := third(); o != nil {
+				args = append(args, o)
+			}
+		}
+		return args
+	}
+}
+
+// x19optCount: the count argument, or nil (argument omitted).
+func x19optCount() tengo.Object {
+	k := vf.Choice("count", len(x19splitN)+1)
+	if k == len(x19splitN) {
+		return nil
+	}
+	return x19I(x19splitN[k])
+}
+
+func x19mapOf(o tengo.Object) (map[string]tengo.Object, bool) {
+	switch m := o.(type) {
+	case *tengo.Map:
+		return m.Value, true
+	case *tengo.ImmutableMap:
+		return m.Value, true
+	}
+	return nil, false
+}
+
+// x19findCheck: the documented shape of re_find / Regexp.find results: an
+// array with one array per match holding, for the match and every
+// participating group, a map {text, begin, end (exclusive)}; undefined when
+// nothing matches.
+func x19findCheck(n, text string, ms [][]int, got tengo.Object) {
+	if ms == nil {
+		vf.Assert(got == tengo.Object(tengo.UndefinedValue), n+": no match is undefined")
+		return
+	}
+	arr, ok := got.(*tengo.Array)
+	vf.Assert(ok, n+": result is an array of matches")
+	vf.Assert(len(arr.Value) == len(ms), n+": one entry per match of FindAllStringSubmatchIndex")
+	for k, m := range ms {
+		sub, ok := arr.Value[k].(*tengo.Array)
+		vf.Assert(ok, n+": each match is an array")
+		j := 0
+		for g := 0; g+1 < len(m); g += 2 {
+			if m[g] < 0 || m[g+1] < 0 {
+				continue
+			}
+			vf.Assert(j < len(sub.Value), n+": one map per participating group")
+			mm, ok := x19mapOf(sub.Value[j])
+			vf.Assert(ok, n+": each group is a map")
+			vf.Assert(Same(mm["text"], x19S(text[m[g]:m[g+1]])), n+": text is the matched text")
+			vf.Assert(Same(mm["begin"], x19I(int64(m[g]))), n+": begin is the start index")
+			vf.Assert(Same(mm["end"], x19I(int64(m[g+1]))), n+": end is the exclusive end index")
+			j++
+		}
+		vf.Assert(j == len(sub.Value), n+": no extra group entries")
+	}
+}
+
+func x19reFind(n string, pat, text string, a []x19arg, got tengo.Object, err error) {
+	re, cerr := regexp.Compile(pat)
+	if cerr != nil {
+		x19want(n, nil, cerr, got, err)
+		return
+	}
+	vf.Assert(err == nil, n+": no run-time error for right-typed arguments")
+	if len(a) == 0 {
+		// count omitted (documented for Regexp.find's sibling only): the first match
+		var ms [][]int
+		if m := re.FindStringSubmatchIndex(text); m != nil {
+			ms = [][]int{m}
+		}
+		x19findCheck(n, text, ms, got)
+		return
+	}
+	x19findCheck(n, text, re.FindAllStringSubmatchIndex(text, int(a[0].i)), got)
+}
+
+func x19reSplit(pat, text string, a []x19arg) (tengo.Object, error) {
+	re, cerr := regexp.Compile(pat)
+	if cerr != nil {
+		return nil, cerr
+	}
+	cnt := -1
+	if len(a) > 0 {
+		cnt = int(a[0].i)
+	}
+	return x19strsObj(re.Split(text, cnt))
+}
+
+// x19reObject: the documented Regexp object: match, find, replace, split
+// behave like the re_* functions with the pattern bound.
+func x19reObject(n, pat string, got tengo.Object, err error) {
+	re, cerr := regexp.Compile(pat)
+	if cerr != nil {
+		x19want(n, nil, cerr, got, err)
+		return
+	}
+	vf.Assert(err == nil, n+": no run-time error for a valid pattern")
+	members, ok := x19mapOf(got)
+	vf.Assert(ok, n+": a Regexp object is returned")
+	names := []string{"match", "find", "replace", "split"}
+	name := names[vf.Choice("member", len(names))]
+	mo, ok := members[name]
+	vf.Assert(ok, n+": Regexp has member "+name)
+	vf.Assert(mo.CanCall(), n+": Regexp."+name+" is callable")
+	text := x19sym("t", 2, true)
+	mn := "text.Regexp." + name
+	switch name {
+	case "match":
+		g, e := x19call(mn, mo.Call, []tengo.Object{x19S(text)})
+		x19want(mn, x19B(re.MatchString(text)), nil, g, e)
+	case "find":
+		args := []tengo.Object{x19S(text)}
+		var a []x19arg
+		if c := x19optCount(); c != nil {
+			args = append(args, c)
+			a = []x19arg{{i: c.(*tengo.Int).Value}}
+		}
+		g, e := x19call(mn, mo.Call, args)
+		x19reFind(mn, pat, text, a, g, e)
+	case "replace":
+		repl := x19pickS("repl", x19repls)
+		g, e := x19call(mn, mo.Call, []tengo.Object{x19S(text), x19S(repl)})
+		x19want(mn, x19S(re.ReplaceAllString(text, repl)), nil, g, e)
+	case "split":
+		args := []tengo.Object{x19S(text)}
+		var a []x19arg
+		if c := x19optCount(); c != nil {
+			args = append(args, c)
+			a = []x19arg{{i: c.(*tengo.Int).Value}}
+		}
+		g, e := x19call(mn, mo.Call, args)
+		want, _ := x19reSplit(pat, text, a)
+		x19want(mn, want, nil, g, e)
+	}
+}
+
+var x19textRe = []x19spec{
+	{name: "re_match", sig: "SS", gen: x19genRe(true, nil),
+		chk: x19eq(func(a []x19arg) (tengo.Object, error) {
+			v, err := regexp.MatchString(a[0].s, a[1].s)
+			return x19B(v), err
+		})},
+	// (the two-argument forms of re_find / re_split are not documented; they are
+	// checked as "first match" / "all substrings" and excluded from the wrong-count check)
+	{name: "re_find", sig: "SSI", opt: 1, gen: x19genRe(true, x19optCount),
+		chk: func(n string, a []x19arg, got tengo.Object, err error) { x19reFind(n, a[0].s, a[1].s, a[2:], got, err) }},
+	{name: "re_replace", sig: "SSS", gen: x19genRe(true, func() tengo.Object { return x19S(x19pickS("repl", x19repls)) }),
+		chk: x19eq(func(a []x19arg) (tengo.Object, error) {
+			re, err := regexp.Compile(a[0].s)
+			if err != nil {
+				return nil, err
+			}
+			return x19S(re.ReplaceAllString(a[1].s, a[2].s)), nil
+		})},
+	{name: "re_split", sig: "SSI", opt: 1, gen: x19genRe(true, x19optCount),
+		chk: x19eq(func(a []x19arg) (tengo.Object, error) { return x19reSplit(a[0].s, a[1].s, a[2:]) })},
+	{name: "re_compile", sig: "S", gen: x19genRe(false, nil),
+		chk: func(n string, a []x19arg, got tengo.Object, err error) { x19reObject(n, a[0].s, got, err) }},
+}
+
+func x19textAll() []x19spec {
+	var all []x19spec
+	all = append(all, x19textPred...)
+	all = append(all, x19textXform...)
+	all = append(all, x19textConv...)
+	all = append(all, x19textRe...)
+	return all
+}
+
+// C19_TextPred / TextXform / TextConv / TextRe: every documented function of
+// module text against the Go function the documentation names.
+func C19_TextPred()  { x19value("text", x19textPred); vf.Reach("text-pred") }
+func C19_TextXform() { x19value("text", x19textXform); vf.Reach("text-xform") }
+func C19_TextConv()  { x19value("text", x19textConv); vf.Reach("text-conv") }
+func C19_TextRe()    { x19value("text", x19textRe); vf.Reach("text-re") }
+
+// C19_TextArgs: argument counts and argument types of every text function.
+func C19_TextArgs() { x19args("text", x19textAll()); vf.Reach("text-args") }
+
+// C19_TextCoerce: arguments of the other accepted types are coerced as documented.
+func C19_TextCoerce() { x19coerced("text", x19textAll()); vf.Reach("text-coerce") }
+
+// ---------------------------------------------------------------------------
+// base64, hex
+
+type x19codec struct {
+	mod, enc, dec string
+	encode        func([]byte) string
+	decode        func(string) ([]byte, error)
+}
+
+// documented name -> encoding ("raw" omits the padding, "url" is the URL alphabet)
+var x19codecs = []x19codec{
+	{"base64", "encode", "decode", base64.StdEncoding.EncodeToString, base64.StdEncoding.DecodeString},
+	{"base64", "raw_encode", "raw_decode", base64.RawStdEncoding.EncodeToString, base64.RawStdEncoding.DecodeString},
+	{"base64", "url_encode", "url_decode", base64.URLEncoding.EncodeToString, base64.URLEncoding.DecodeString},
+	{"base64", "raw_url_encode", "raw_url_decode", base64.RawURLEncoding.EncodeToString, base64.RawURLEncoding.DecodeString},
+	{"hex", "encode", "decode", hex.EncodeToString, hex.DecodeString},
+}
+
+func x19symBytes(id string, max int) []byte {
+	n := vf.Choice(id+".len", max+1)
+	return vf.Bytes(id, n)
+}
+
+func x19codecTab(mod string) []x19spec {
+	var tab []x19spec
+	for k := range x19codecs {
+		c := x19codecs[k]
+		if c.mod != mod {
+			continue
+		}
+		tab = append(tab, x19spec{name: c.enc, sig: "Y",
+			gen: func() []tengo.Object {
+				b := x19symBytes("src", 3)
+				if vf.Choice("src.str", 2) == 1 {
+					return []tengo.Object{x19S(string(b))}
+				}
+				return []tengo.Object{x19Y(b)}
+			},
+			chk: x19eq(func(a []x19arg) (tengo.Object, error) { return x19S(c.encode(a[0].y)), nil })})
+		tab = append(tab, x19spec{name: c.dec, sig: "S",
+			gen: func() []tengo.Object {
+				if vf.Choice("s.kind", 2) == 0 {
+					// a string over the right alphabet: the encoding of arbitrary bytes
+					return []tengo.Object{x19S(c.encode(x19symBytes("src", 3)))}
+				}
+				return []tengo.Object{x19S(x19sym("s", 3, false))}
+			},
+			chk: x19eq(func(a []x19arg) (tengo.Object, error) {
+				v, err := c.decode(a[0].s)
+				return x19Y(v), err
+			}),
+			smp: func() []tengo.Object { return []tengo.Object{x19S(c.encode([]byte("ab")))} }})
+	}
+	return tab
+}
+
+// C19_Codec: base64.* and hex.* against encoding/base64 and encoding/hex;
+// decoding errors are error values carrying the Go error text.
+func C19_Codec() {
+	mods := []string{"base64", "hex"}
+	mod := mods[vf.Choice("mod", len(mods))]
+	x19value(mod, x19codecTab(mod))
+	vf.Reach("codec")
+}
+
+// C19_CodecRoundTrip: decode(encode(b)) == b through the module functions.
+func C19_CodecRoundTrip() {
+	c := x19codecs[vf.Choice("codec", len(x19codecs))]
+	b := x19symBytes("src", 3)
+	n := c.mod + "." + c.dec + "(" + c.enc + "(b))"
+	s, err := x19call(n, x19fn(c.mod, c.enc), []tengo.Object{x19Y(b)})
+	vf.Assert(err == nil, n+": encode succeeds")
+	back, err := x19call(n, x19fn(c.mod, c.dec), []tengo.Object{s})
+	vf.Assert(err == nil, n+": decode succeeds")
+	vf.Assert(Same(back, x19Y(b)), n+": round trip gives the original bytes")
+	vf.Reach("codec-roundtrip")
+}
+
+func C19_CodecArgs() {
+	mods := []string{"base64", "hex"}
+	mod := mods[vf.Choice("mod", len(mods))]
+	if vf.Choice("what", 2) == 0 {
+		x19args(mod, x19codecTab(mod))
+	} else {
+		x19coerced(mod, x19codecTab(mod))
+	}
+	vf.Reach("codec-args")
+}
+
+// C19_Limit: functions whose result can be longer than their inputs, with
+// MaxStringLen / MaxBytesLen symbolic in 0..8 and every input within the
+// limit: a result longer than the limit is the limit error, a result that
+// fits is returned unchanged.
+type x19lim struct {
+	mod, name string
+	args      func() []tengo.Object
+	natural   func(a []tengo.Object) tengo.Object // documented result without a limit
+}
+
+func x19str(o tengo.Object) string { return o.(*tengo.String).Value }
+
+var x19lims = []x19lim{
+	{"text", "repeat", func() []tengo.Object {
+		return []tengo.Object{x19S(rep('a', vf.Choice("n1", 3))), x19I(int64(vf.Choice("count", 5)))}
+	}, func(a []tengo.Object) tengo.Object {
+		return x19S(strings.Repeat(x19str(a[0]), int(a[1].(*tengo.Int).Value)))
+	}},
+	{"text", "replace", func() []tengo.Object {
+		return []tengo.Object{x19S("xax"), x19S("x"), x19S(rep('y', vf.Choice("m", 4))), x19I(x19pickI("n", []int64{-1, 1, 2}))}
+	}, func(a []tengo.Object) tengo.Object {
+		return x19S(strings.Replace(x19str(a[0]), x19str(a[1]), x19str(a[2]), int(a[3].(*tengo.Int).Value)))
+	}},
+	{"text", "pad_left", func() []tengo.Object {
+		return []tengo.Object{x19S(rep('a', vf.Choice("n1", 3))), x19I(int64(vf.Choice("padlen", 8))), x19S("p")}
+	}, func(a []tengo.Object) tengo.Object {
+		s, l := x19str(a[0]), int(a[1].(*tengo.Int).Value)
+		if l > len(s) {
+			return x19S(rep('p', l-len(s)) + s)
+		}
+		return x19S(s)
+	}},
+	{"text", "pad_right", func() []tengo.Object {
+		return []tengo.Object{x19S(rep('a', vf.Choice("n1", 3))), x19I(int64(vf.Choice("padlen", 8)))}
+	}, func(a []tengo.Object) tengo.Object {
+		s, l := x19str(a[0]), int(a[1].(*tengo.Int).Value)
+		if l > len(s) {
+			return x19S(s + rep(' ', l-len(s)))
+		}
+		return x19S(s)
+	}},
+	{"text", "join", func() []tengo.Object {
+		return []tengo.Object{x19Strs([]string{rep('a', vf.Choice("n1", 3)), rep('b', vf.Choice("n2", 3))}), x19S(rep('-', vf.Choice("m", 3)))}
+	}, func(a []tengo.Object) tengo.Object {
+		es := a[0].(*tengo.Array).Value
+		return x19S(x19str(es[0]) + x19str(a[1]) + x19str(es[1]))
+	}},
+	{"text", "re_replace", func() []tengo.Object {
+		return []tengo.Object{x19S("x"), x19S("xax"), x19S(rep('y', vf.Choice("m", 4)))}
+	}, func(a []tengo.Object) tengo.Object {
+		return x19S(strings.Replace(x19str(a[1]), "x", x19str(a[2]), -1))
+	}},
+	{"text", "quote", func() []tengo.Object { return []tengo.Object{x19S(rep('a', vf.Choice("n1", 4)))} },
+		func(a []tengo.Object) tengo.Object { return x19S(strconv.Quote(x19str(a[0]))) }},
+	{"text", "itoa", func() []tengo.Object { return []tengo.Object{x19I(x19pickI("i", []int64{0, 12345, -1234567}))} },
+		func(a []tengo.Object) tengo.Object { return x19S(strconv.FormatInt(a[0].(*tengo.Int).Value, 10)) }},
+	{"text", "to_upper", func() []tengo.Object { return []tengo.Object{x19S(x19pickS("s", []string{"ɐ", "aɐ", "ab"}))} },
+		func(a []tengo.Object) tengo.Object { return x19S(strings.ToUpper(x19str(a[0]))) }},
+	{"base64", "decode", func() []tengo.Object {
+		return []tengo.Object{x19S(base64.StdEncoding.EncodeToString([]byte(rep('a', vf.Choice("n1", 7)))))}
+	}, func(a []tengo.Object) tengo.Object {
+		b, _ := base64.StdEncoding.DecodeString(x19str(a[0]))
+		return x19Y(b)
+	}},
+	{"hex", "decode", func() []tengo.Object {
+		return []tengo.Object{x19S(hex.EncodeToString([]byte(rep('a', vf.Choice("n1", 5)))))}
+	}, func(a []tengo.Object) tengo.Object {
+		b, _ := hex.DecodeString(x19str(a[0]))
+		return x19Y(b)
+	}},
+	// base64.encode / hex.encode (adapter FuncAYRS) perform no MaxStringLen
+	// check; the property states no limit rule for the stdlib, so they are
+	// not asserted here (DESIGN.md 9.4, C19).
+}
+
+func C19_Limit() {
+	e := x19lims[vf.Choice("fn", len(x19lims))]
+	n := e.mod + "." + e.name
+	L := vf.Int("L")
+	LB := vf.Int("LB")
+	vf.Assume(L >= 0)
+	vf.Assume(L <= 8)
+	vf.Assume(LB >= 0)
+	vf.Assume(LB <= 8)
+	args := e.args()
+	for _, a := range args {
+		// inputs are values that exist under the limits
+		vf.Assume(maxLenIn(a, false, 0) <= L)
+		vf.Assume(maxLenIn(a, true, 0) <= LB)
+	}
+	want := e.natural(args)
+	f := x19fn(e.mod, e.name)
+	oldS, oldB := tengo.MaxStringLen, tengo.MaxBytesLen
+	tengo.MaxStringLen, tengo.MaxBytesLen = L, LB
+	defer func() { tengo.MaxStringLen, tengo.MaxBytesLen = oldS, oldB }()
+	got, err := x19call(n, f, args)
+	over := vf.Or(maxLenIn(want, false, 0) > L, maxLenIn(want, true, 0) > LB)
+	if err != nil {
+		vf.Assert(errors.Is(err, tengo.ErrStringLimit) || errors.Is(err, tengo.ErrBytesLimit), n+": fails only with the limit error")
+		vf.Assert(over, n+": no limit error for a result that fits")
+	} else {
+		vf.Assert(vf.Not(over), n+": a result longer than the limit is the limit error")
+		vf.Assert(Same(got, want), n+": a result within the limit is the documented result")
+	}
+	vf.Reach("limit")
+}
+
+// ---------------------------------------------------------------------------
+// math
+
+// documented constants (docs/stdlib-math.md, "Constants"): the documentation
+// gives the names; the values are Go's math constants of the same name.
+var x19mathF = []struct {
+	name string
+	v    float64
+}{
+	{"e", math.E}, {"pi", math.Pi}, {"phi", math.Phi}, {"sqrt2", math.Sqrt2}, {"sqrtE", math.SqrtE},
+	{"sqrtPi", math.SqrtPi}, // docs/stdlib-math.md spells it "sprtPi" (typo)
+	{"sqrtPhi", math.SqrtPhi}, {"ln2", math.Ln2}, {"log2E", math.Log2E}, {"ln10", math.Ln10},
+	{"log10E", math.Log10E}, // docs/stdlib-math.md spells it "ln10E" (typo)
+	{"maxFloat32", math.MaxFloat32}, {"smallestNonzeroFloat32", math.SmallestNonzeroFloat32},
+	{"maxFloat64", math.MaxFloat64}, {"smallestNonzeroFloat64", math.SmallestNonzeroFloat64},
+}
+
+var x19mathI = []struct {
+	name string
+	v    int64
+}{
+	{"maxInt", math.MaxInt}, {"minInt", math.MinInt}, {"maxInt8", math.MaxInt8}, {"minInt8", math.MinInt8},
+	{"maxInt16", math.MaxInt16}, {"minInt16", math.MinInt16}, {"maxInt32", math.MaxInt32}, {"minInt32", math.MinInt32},
+	{"maxInt64", math.MaxInt64}, {"minInt64", math.MinInt64},
+}
+
+func C19_MathConst() {
+	m := stdlib.BuiltinModules["math"]
+	k := vf.Choice("const", len(x19mathF)+len(x19mathI))
+	if k < len(x19mathF) {
+		c := x19mathF[k]
+		o, ok := m[c.name]
+		vf.Assert(ok, "math."+c.name+": the documented constant is provided by the module")
+		vf.Assert(Same(o, x19F(c.v)), "math."+c.name+": has the value of the Go constant")
+	} else {
+		c := x19mathI[k-len(x19mathF)]
+		o, ok := m[c.name]
+		vf.Assert(ok, "math."+c.name+": the documented constant is provided by the module")
+		vf.Assert(Same(o, x19I(c.v)), "math."+c.name+": has the value of the Go constant")
+	}
+	vf.Reach("math-const")
+}
+
+var x19mathF1 = []struct {
 	name string
 	f    func(float64) float64
-}{{"sqrt", math.Sqrt}, {"sin", math.Sin}, {"floor", math.Floor}, {"abs", math.Abs}, {"gamma", math.Gamma}, {"logb", math.Logb}}
-
-func C19_SpikeMathA() { spikeMath(vf.Choice("k", len(spikeF1))) }
-func C19_SpikeMathB() { spikeMath(len(spikeF1)) }
-func C19_SpikeMathC() { spikeMath(len(spikeF1) + 1) }
-func C19_SpikeMathD() { spikeMath(len(spikeF1) + 2) }
-func spikeMath(k int) {
-	m := stdlib.BuiltinModules["math"]
-	x := vf.Float64("x")
-	if k < len(spikeF1) {
-		e := spikeF1[k]
-		f := m[e.name].(*tengo.UserFunction)
-		got, err := f.Value(&tengo.Float{Value: x})
-		vf.Assert(err == nil, "no err")
-		vf.Assert(Same(got, &tengo.Float{Value: e.f(x)}), "math "+e.name)
-	} else if k == len(spikeF1) {
-		n := vf.Int64("n")
-		got, err := m["jn"].(*tengo.UserFunction).Value(&tengo.Int{Value: n}, &tengo.Float{Value: x})
-		vf.Assert(err == nil, "no err")
-		vf.Assert(Same(got, &tengo.Float{Value: math.Jn(int(n), x)}), "math jn")
-	} else if k == len(spikeF1)+1 {
-		n := vf.Int64("n")
-		got, err := m["ldexp"].(*tengo.UserFunction).Value(&tengo.Float{Value: x}, &tengo.Int{Value: n})
-		vf.Assert(err == nil, "no err")
-		vf.Assert(Same(got, &tengo.Float{Value: math.Ldexp(x, int(n))}), "math ldexp")
-	} else {
-		n := vf.Int64("n")
-		got, err := m["pow10"].(*tengo.UserFunction).Value(&tengo.Int{Value: n})
-		vf.Assert(err == nil, "no err")
-		vf.Assert(Same(got, &tengo.Float{Value: math.Pow10(int(n))}), "math pow10")
-	}
-	vf.Reach("spike")
+}{
+	{"abs", math.Abs}, {"acos", math.Acos}, {"acosh", math.Acosh}, {"asin", math.Asin}, {"asinh", math.Asinh},
+	{"atan", math.Atan}, {"atanh", math.Atanh}, {"cbrt", math.Cbrt}, {"ceil", math.Ceil}, {"cos", math.Cos},
+	{"cosh", math.Cosh}, {"erf", math.Erf}, {"erfc", math.Erfc}, {"exp", math.Exp}, {"exp2", math.Exp2},
+	{"expm1", math.Expm1}, {"floor", math.Floor}, {"gamma", math.Gamma}, {"j0", math.J0}, {"j1", math.J1},
+	{"log", math.Log}, {"log10", math.Log10}, {"log1p", math.Log1p}, {"log2", math.Log2}, {"logb", math.Logb},
+	{"sin", math.Sin}, {"sinh", math.Sinh}, {"sqrt", math.Sqrt}, {"tan", math.Tan}, {"tanh", math.Tanh},
+	{"trunc", math.Trunc}, {"y0", math.Y0}, {"y1", math.Y1},
 }
 
-func C19_SpikeTimes() {
+var x19mathF2 = []struct {
+	name string
+	f    func(float64, float64) float64
+}{
+	{"atan2", math.Atan2}, {"copysign", math.Copysign}, {"dim", math.Dim}, {"hypot", math.Hypot}, {"max", math.Max},
+	{"min", math.Min}, {"mod", math.Mod}, {"nextafter", math.Nextafter}, {"pow", math.Pow}, {"remainder", math.Remainder},
+}
+
+// x19numF: a float(compatible) argument: symbolic float or symbolic int.
+func x19numF(id string) tengo.Object {
+	if vf.Choice(id+".int", 2) == 1 {
+		return x19I(vf.Int64(id + ".i"))
+	}
+	return x19F(vf.Float64(id + ".f"))
+}
+
+var x19xs = []float64{0, 0.5, 2.5, -1.5, 100, 1e-300}
+var x19signs = []int64{-1, 0, 1, -9223372036854775808, 9223372036854775807}
+
+func x19concF(id string) tengo.Object {
+	k := vf.Choice(id, len(x19xs)+2)
+	switch k {
+	case len(x19xs):
+		return x19F(math.NaN())
+	case len(x19xs) + 1:
+		return x19F(math.Inf(1))
+	}
+	return x19F(x19xs[k])
+}
+
+func x19mathTab() []x19spec {
+	var tab []x19spec
+	for k := range x19mathF1 {
+		e := x19mathF1[k]
+		tab = append(tab, x19spec{name: e.name, sig: "F",
+			gen: func() []tengo.Object { return []tengo.Object{x19numF("x")} },
+			chk: x19eq(func(a []x19arg) (tengo.Object, error) { return x19F(e.f(a[0].f)), nil })})
+	}
+	for k := range x19mathF2 {
+		e := x19mathF2[k]
+		tab = append(tab, x19spec{name: e.name, sig: "FF",
+			gen: func() []tengo.Object { return []tengo.Object{x19numF("x"), x19numF("y")} },
+			chk: x19eq(func(a []x19arg) (tengo.Object, error) { return x19F(e.f(a[0].f, a[1].f)), nil })})
+	}
+	tab = append(tab,
+		// (documented "=> float ... as an integer": the Go function returns int)
+		x19spec{name: "ilogb", sig: "F", gen: func() []tengo.Object { return []tengo.Object{x19numF("x")} },
+			chk: x19eq(func(a []x19arg) (tengo.Object, error) { return x19I(int64(math.Ilogb(a[0].f))), nil })},
+		// (the engine evaluates math.Inf on concrete signs only)
+		x19spec{name: "inf", sig: "I", gen: func() []tengo.Object { return []tengo.Object{x19I(x19pickI("sign", x19signs))} },
+			chk: x19eq(func(a []x19arg) (tengo.Object, error) { return x19F(math.Inf(int(a[0].i))), nil })},
+		// (documented "=> float" for the three predicates: the Go functions report a bool)
+		x19spec{name: "is_inf", sig: "FI", gen: func() []tengo.Object { return []tengo.Object{x19numF("x"), x19I(vf.Int64("sign"))} },
+			chk: x19eq(func(a []x19arg) (tengo.Object, error) { return x19B(math.IsInf(a[0].f, int(a[1].i))), nil })},
+		x19spec{name: "is_nan", sig: "F", gen: func() []tengo.Object { return []tengo.Object{x19numF("x")} },
+			chk: x19eq(func(a []x19arg) (tengo.Object, error) { return x19B(math.IsNaN(a[0].f)), nil })},
+		x19spec{name: "signbit", sig: "F", gen: func() []tengo.Object { return []tengo.Object{x19numF("x")} },
+			chk: x19eq(func(a []x19arg) (tengo.Object, error) { return x19B(math.Signbit(a[0].f)), nil })},
+		// Bessel functions of order n: concrete orders and arguments (the Go
+		// bodies are loops of float arithmetic, not modelled symbolically)
+		x19spec{name: "jn", sig: "IF", gen: func() []tengo.Object {
+			return []tengo.Object{x19I(x19pickI("n", []int64{0, 1, 2, -1, 3})), x19concF("x")}
+		}, chk: x19eq(func(a []x19arg) (tengo.Object, error) { return x19F(math.Jn(int(a[0].i), a[1].f)), nil })},
+		x19spec{name: "yn", sig: "IF", gen: func() []tengo.Object {
+			return []tengo.Object{x19I(x19pickI("n", []int64{0, 1, 2, -1, 3})), x19concF("x")}
+		}, chk: x19eq(func(a []x19arg) (tengo.Object, error) { return x19F(math.Yn(int(a[0].i), a[1].f)), nil })},
+		x19spec{name: "ldexp", sig: "FI", gen: func() []tengo.Object { return []tengo.Object{x19F(vf.Float64("x")), x19I(vf.Int64("exp"))} },
+			chk: x19eq(func(a []x19arg) (tengo.Object, error) { return x19F(math.Ldexp(a[0].f, int(a[1].i))), nil })},
+		x19spec{name: "nan", sig: "", gen: func() []tengo.Object { return nil },
+			chk: x19eq(func(a []x19arg) (tengo.Object, error) { return x19F(math.NaN()), nil })},
+		x19spec{name: "pow10", sig: "I", gen: func() []tengo.Object { return []tengo.Object{x19I(vf.Int64("n"))} },
+			chk: x19eq(func(a []x19arg) (tengo.Object, error) { return x19F(math.Pow10(int(a[0].i))), nil })},
+	)
+	return tab
+}
+
+// C19_Math: every documented function of module math against the Go function
+// of the same name (math.Sqrt, ... on a symbolic float are uninterpreted
+// functions of their arguments in the engine: a swapped function or
+// transposed arguments are decided exactly).
+func C19_Math() { x19value("math", x19mathTab()); vf.Reach("math") }
+
+func C19_MathArgs() {
+	if vf.Choice("what", 2) == 0 {
+		x19args("math", x19mathTab())
+	} else {
+		x19coerced("math", x19mathTab())
+	}
+	vf.Reach("math-args")
+}
+
+// ---------------------------------------------------------------------------
+// times (clock-independent part: now, sleep, since, until are excluded)
+
+// documented constants with their documented values
+var x19timesS = []struct{ name, v string }{
+	{"format_ansic", "Mon Jan _2 15:04:05 2006"},
+	{"format_unix_date", "Mon Jan _2 15:04:05 MST 2006"},
+	{"format_ruby_date", "Mon Jan 02 15:04:05 -0700 2006"},
+	{"format_rfc822", "02 Jan 06 15:04 MST"},
+	{"format_rfc822z", "02 Jan 06 15:04 -0700"},
+	{"format_rfc850", "Monday, 02-Jan-06 15:04:05 MST"},
+	{"format_rfc1123", "Mon, 02 Jan 2006 15:04:05 MST"},
+	{"format_rfc1123z", "Mon, 02 Jan 2006 15:04:05 -0700"},
+	{"format_rfc3339", "2006-01-02T15:04:05Z07:00"},
+	{"format_rfc3339_nano", "2006-01-02T15:04:05.999999999Z07:00"},
+	{"format_kitchen", "3:04PM"},
+	{"format_stamp", "Jan _2 15:04:05"},
+	{"format_stamp_milli", "Jan _2 15:04:05.000"},
+	{"format_stamp_micro", "Jan _2 15:04:05.000000"},
+	{"format_stamp_nano", "Jan _2 15:04:05.000000000"},
+}
+
+// durations in nanoseconds (Go's time.Duration constants), months 1..12
+var x19timesI = []struct {
+	name string
+	v    int64
+}{
+	{"nanosecond", 1}, {"microsecond", 1000}, {"millisecond", 1000000}, {"second", 1000000000},
+	{"minute", 60000000000}, {"hour", 3600000000000},
+	{"january", 1}, {"february", 2}, {"march", 3}, {"april", 4}, {"may", 5}, {"june", 6}, {"july", 7},
+	{"august", 8}, {"september", 9}, {"october", 10}, {"november", 11}, {"december", 12},
+}
+
+func C19_TimesConst() {
 	m := stdlib.BuiltinModules["times"]
-	k := vf.Choice("k", 6)
-	sec := vf.Int64("sec")
+	k := vf.Choice("const", len(x19timesS)+len(x19timesI))
+	if k < len(x19timesS) {
+		c := x19timesS[k]
+		o, ok := m[c.name]
+		vf.Assert(ok, "times."+c.name+": the documented constant is provided by the module")
+		vf.Assert(Same(o, x19S(c.v)), "times."+c.name+": has the documented value")
+	} else {
+		c := x19timesI[k-len(x19timesS)]
+		o, ok := m[c.name]
+		vf.Assert(ok, "times."+c.name+": the documented constant is provided by the module")
+		vf.Assert(Same(o, x19I(c.v)), "times."+c.name+": has the value of the Go constant")
+	}
+	vf.Reach("times-const")
+}
+
+// x19symT: a time value: symbolic seconds (|sec| < 2^40), nanoseconds from a
+// boundary set, in the local zone, in UTC, or the zero time.
+func x19symT(id string) tengo.Object {
+	kind := vf.Choice(id+".kind", 3)
+	if kind == 2 {
+		return x19T(time.Time{})
+	}
+	sec := vf.Int64(id + ".sec")
 	vf.Assume(sec > -(1 << 40))
 	vf.Assume(sec < (1 << 40))
-	t := time.Unix(sec, 5)
-	switch k {
-	case 0:
-		got, err := m["time_year"].(*tengo.UserFunction).Value(&tengo.Time{Value: t})
-		vf.Assert(err == nil, "no err")
-		vf.Assert(Same(got, &tengo.Int{Value: int64(t.Year())}), "time_year")
-	case 1:
-		got, err := m["time_hour"].(*tengo.UserFunction).Value(&tengo.Time{Value: t})
-		vf.Assert(err == nil, "no err")
-		vf.Assert(Same(got, &tengo.Int{Value: int64(t.Hour())}), "time_hour")
-	case 2:
-		d := vf.Int64("d")
-		got, err := m["duration_hours"].(*tengo.UserFunction).Value(&tengo.Int{Value: d})
-		vf.Assert(err == nil, "no err")
-		vf.Assert(Same(got, &tengo.Float{Value: time.Duration(d).Hours()}), "duration_hours")
-	case 3:
-		got, err := m["in_location"].(*tengo.UserFunction).Value(&tengo.Time{Value: t}, &tengo.String{Value: "No/Such"})
-		vf.Assert(err == nil, "no err")
-		_, isErr := got.(*tengo.Error)
-		vf.Assert(isErr, "in_location bad")
-	case 4:
-		got, err := m["time_format"].(*tengo.UserFunction).Value(&tengo.Time{Value: time.Unix(1700000000, 5)}, &tengo.String{Value: time.RFC3339Nano})
-		vf.Assert(err == nil, "no err")
-		vf.Assert(Same(got, &tengo.String{Value: time.Unix(1700000000, 5).Format(time.RFC3339Nano)}), "time_format")
-	case 5:
-		got, err := m["parse"].(*tengo.UserFunction).Value(&tengo.String{Value: time.RFC3339}, &tengo.String{Value: "2020-02-03T04:05:06Z"})
-		vf.Assert(err == nil, "no err")
-		w, werr := time.Parse(time.RFC3339, "2020-02-03T04:05:06Z")
-		vf.Assert(werr == nil, "ref parses")
-		vf.Assert(Same(got, &tengo.Time{Value: w}), "parse")
+	t := time.Unix(sec, x19pickI(id+".nsec", []int64{0, 5, 999999999}))
+	if kind == 1 {
+		t = t.UTC()
 	}
-	vf.Reach("spike")
+	return x19T(t)
 }
 
-func C19_SpikeHex() {
-	m := stdlib.BuiltinModules["hex"]
-	s := vf.String("s", 2)
-	got, err := m["decode"].(*tengo.UserFunction).Value(&tengo.String{Value: s})
-	vf.Assert(err == nil, "no err")
-	w, werr := hex.DecodeString(s)
-	if werr != nil {
-		vf.Assert(Same(got, &tengo.Error{Value: &tengo.String{Value: werr.Error()}}), "hex decode error")
-	} else {
-		vf.Assert(Same(got, &tengo.Bytes{Value: w}), "hex decode")
+// concrete times for everything that renders
+func x19concT(id string) tengo.Object {
+	switch vf.Choice(id, 4) {
+	case 0:
+		return x19T(time.Unix(1700000000, 5))
+	case 1:
+		return x19T(time.Date(2021, 3, 4, 15, 6, 7, 80000000, time.UTC))
+	case 2:
+		return x19T(time.Date(1999, 12, 31, 23, 59, 59, 999999999, time.UTC))
 	}
-	vf.Reach("spike")
+	return x19T(time.Time{})
+}
+
+func x19genT1() []tengo.Object { return []tengo.Object{x19symT("t")} }
+func x19genTT() []tengo.Object { return []tengo.Object{x19symT("t"), x19symT("u")} }
+
+// x19wantT: time results are compared as instant and zone name.
+func x19wantT(n string, want time.Time, werr error, got tengo.Object, err error) {
+	if werr != nil {
+		x19want(n, nil, werr, got, err)
+		return
+	}
+	vf.Assert(err == nil, n+": no run-time error for right-typed arguments in the Go function's domain")
+	g, ok := got.(*tengo.Time)
+	vf.Assert(ok, n+": result is a time")
+	vf.Assert(g.Value.Equal(want), n+": result is the instant the documented Go function returns")
+	vf.Assert(g.Value.Location().String() == want.Location().String(), n+": result is in the zone the documented Go function returns")
+}
+
+func x19eqT(f func(a []x19arg) (time.Time, error)) func(string, []x19arg, tengo.Object, error) {
+	return func(n string, a []x19arg, got tengo.Object, err error) {
+		want, werr := f(a)
+		x19wantT(n, want, werr, got, err)
+	}
+}
+
+func x19tI(f func(t time.Time) int64) x19spec {
+	return x19spec{sig: "T", gen: x19genT1, chk: x19eq(func(a []x19arg) (tengo.Object, error) { return x19I(f(a[0].t)), nil })}
+}
+
+// calendar boundary instants (leap days, year ends, before the epoch, year 1)
+var x19cal = [][7]int{
+	{2023, 11, 14, 22, 13, 20, 5}, {2021, 3, 4, 15, 6, 7, 80000000}, {1999, 12, 31, 23, 59, 59, 999999999},
+	{2020, 2, 29, 0, 0, 0, 0}, {2100, 2, 28, 23, 59, 59, 0}, {2100, 3, 1, 0, 0, 0, 0}, {1600, 1, 1, 0, 0, 0, 0},
+	{1970, 1, 1, 0, 0, 0, 0}, {1969, 12, 31, 23, 59, 59, 0}, {2024, 12, 31, 12, 0, 0, 0}, {1, 1, 1, 0, 0, 0, 0}, {2023, 7, 31, 1, 2, 3, 4},
+}
+
+func x19calT(id string) tengo.Object {
+	c := x19cal[vf.Choice(id+".cal", len(x19cal))]
+	t := time.Date(c[0], time.Month(c[1]), c[2], c[3], c[4], c[5], c[6], time.UTC)
+	if vf.Choice(id+".local", 2) == 1 {
+		t = t.Local()
+	}
+	return x19T(t)
+}
+
+func x19calI(f func(t time.Time) int64) x19spec {
+	return x19spec{sig: "T",
+		gen: func() []tengo.Object { return []tengo.Object{x19calT("t")} },
+		chk: x19eq(func(a []x19arg) (tengo.Object, error) { return x19I(f(a[0].t)), nil })}
+}
+
+func x19named(name string, e x19spec) x19spec { e.name = name; return e }
+
+var x19durStrs = []string{"300ms", "-1.5h", "2h45m", "1us", "1µs", "", "1", "x", "9223372036854775807ns", "9223372036854775808ns", "1.5.5s", "+.5s"}
+var x19durs = []int64{0, 1, 999, 1000, 1500000, 90000000000, -3600000000000, 9223372036854775807, -9223372036854775808}
+var x19layouts = []string{
+	"Mon Jan _2 15:04:05 2006", "Mon Jan _2 15:04:05 MST 2006", "Mon Jan 02 15:04:05 -0700 2006", "02 Jan 06 15:04 MST",
+	"02 Jan 06 15:04 -0700", "Monday, 02-Jan-06 15:04:05 MST", "Mon, 02 Jan 2006 15:04:05 MST", "Mon, 02 Jan 2006 15:04:05 -0700",
+	"2006-01-02T15:04:05Z07:00", "2006-01-02T15:04:05.999999999Z07:00", "3:04PM", "Jan _2 15:04:05", "Jan _2 15:04:05.000",
+	"Jan _2 15:04:05.000000", "Jan _2 15:04:05.000000000", "", "Monday January 2006 __2 pm", "x",
+}
+var x19dates = [][7]int64{
+	{2021, 3, 4, 5, 6, 7, 8}, {2020, 2, 29, 23, 59, 59, 999999999}, {2021, 13, 32, 25, 61, 62, 1000000003},
+	{1, 1, 1, 0, 0, 0, 0}, {1969, 12, 31, 23, 59, 58, 0}, {2021, 0, 0, -1, -2, -3, -4}, {-1, 5, 6, 7, 8, 9, 10}, {2024, 2, 30, 0, 0, 0, 0},
+}
+var x19parses = [][2]string{
+	{"2006-01-02T15:04:05Z07:00", "2020-02-03T04:05:06Z"}, {"2006-01-02T15:04:05Z07:00", "2020-02-03T04:05:06+09:00"},
+	{"2006-01-02", "2021-03-04"}, {"2006-01-02", "2021-13-04"}, {"3:04PM", "3:04PM"}, {"3:04PM", "13:04PM"},
+	{"Mon, 02 Jan 2006 15:04:05 MST", "Mon, 02 Jan 2006 15:04:05 MST"}, {"2006-01-02", ""}, {"", ""},
+	{"Mon Jan _2 15:04:05 2006", "Mon Jan  2 15:04:05 2006"}, {"15:04:05.000", "01:02:03.456"}, {"Jan 2 2006", "Feb 30 2021"},
+	{"2021-03-04", "2006-01-02"},
+}
+
+func x19loc(name string) (*time.Location, error) { return time.LoadLocation(name) }
+
+// zone names that need no zone database
+var x19zones = []string{"UTC", "Local", ""}
+
+func x19timesTab() []x19spec {
+	dF := func(f func(d time.Duration) float64) x19spec {
+		return x19spec{sig: "I", gen: func() []tengo.Object { return []tengo.Object{x19I(vf.Int64("d"))} },
+			chk: x19eq(func(a []x19arg) (tengo.Object, error) { return x19F(f(time.Duration(a[0].i))), nil })}
+	}
+	ttB := func(f func(t, u time.Time) bool) x19spec {
+		return x19spec{sig: "TT", gen: x19genTT, chk: x19eq(func(a []x19arg) (tengo.Object, error) { return x19B(f(a[0].t, a[1].t)), nil })}
+	}
+	return []x19spec{
+		{name: "parse_duration", sig: "S",
+			gen: func() []tengo.Object {
+				k := vf.Choice("s.kind", 1+len(x19durStrs))
+				if k == 0 {
+					// two symbolic bytes in both tiers: a third byte reaches the
+					// fraction scaling, a float conversion the engine does not model
+					// (fractions are in the concrete list)
+					return []tengo.Object{x19S(x19sym("s", 2-Tier(), true))}
+				}
+				return []tengo.Object{x19S(x19durStrs[k-1])}
+			},
+			chk: x19eq(func(a []x19arg) (tengo.Object, error) {
+				d, err := time.ParseDuration(a[0].s)
+				return x19I(int64(d)), err
+			}),
+			smp: func() []tengo.Object { return []tengo.Object{x19S("1h2m")} }},
+		x19named("duration_hours", dF(time.Duration.Hours)),
+		x19named("duration_minutes", dF(time.Duration.Minutes)),
+		x19named("duration_seconds", dF(time.Duration.Seconds)),
+		{name: "duration_nanoseconds", sig: "I", gen: func() []tengo.Object { return []tengo.Object{x19I(vf.Int64("d"))} },
+			chk: x19eq(func(a []x19arg) (tengo.Object, error) { return x19I(time.Duration(a[0].i).Nanoseconds()), nil })},
+		{name: "duration_string", sig: "I", gen: func() []tengo.Object { return []tengo.Object{x19I(x19pickI("d", x19durs))} },
+			chk: x19eq(func(a []x19arg) (tengo.Object, error) { return x19S(time.Duration(a[0].i).String()), nil })},
+		{name: "month_string", sig: "I", gen: func() []tengo.Object { return []tengo.Object{x19I(int64(vf.Choice("m", 15)) - 1)} },
+			chk: x19eq(func(a []x19arg) (tengo.Object, error) { return x19S(time.Month(a[0].i).String()), nil })},
+		{name: "date", sig: "IIIIIIIS", opt: 1, loc: true,
+			gen: func() []tengo.Object {
+				d := x19dates[vf.Choice("date", len(x19dates))]
+				var args []tengo.Object
+				for _, v := range d {
+					args = append(args, x19I(v))
+				}
+				// (without a zone the implementation asks time.Now() for the local
+				// zone, which the engine treats as a clock read: replay-only case)
+				if z := vf.Choice("zone", len(x19zones)+1); z < len(x19zones) {
+					args = append(args, x19S(x19zones[z]))
+				} else if vf.Symbolic() {
+					vf.Stop()
+				}
+				return args
+			},
+			chk: x19eqT(func(a []x19arg) (time.Time, error) {
+				loc := time.Local // "The Local time zone will be used if executed without specifying a location"
+				if len(a) > 7 {
+					l, err := x19loc(a[7].s)
+					if err != nil {
+						return time.Time{}, err
+					}
+					loc = l
+				}
+				return time.Date(int(a[0].i), time.Month(a[1].i), int(a[2].i), int(a[3].i), int(a[4].i), int(a[5].i), int(a[6].i), loc), nil
+			}),
+			smp: func() []tengo.Object {
+				return []tengo.Object{x19I(2021), x19I(3), x19I(4), x19I(5), x19I(6), x19I(7), x19I(8), x19S("UTC")}
+			}},
+		{name: "parse", sig: "SS",
+			gen: func() []tengo.Object {
+				k := vf.Choice("p.kind", 1+len(x19parses))
+				if k == 0 {
+					return []tengo.Object{x19S("15"), x19S(x19sym("s", 2, true))}
+				}
+				return []tengo.Object{x19S(x19parses[k-1][0]), x19S(x19parses[k-1][1])}
+			},
+			chk: x19eqT(func(a []x19arg) (time.Time, error) { return time.Parse(a[0].s, a[1].s) }),
+			smp: func() []tengo.Object { return []tengo.Object{x19S("2006-01-02"), x19S("2021-03-04")} }},
+		{name: "unix", sig: "II",
+			gen: func() []tengo.Object {
+				sec := vf.Int64("sec")
+				vf.Assume(sec > -(1 << 40))
+				vf.Assume(sec < (1 << 40))
+				return []tengo.Object{x19I(sec), x19I(x19pickI("nsec", []int64{0, 5, 999999999, 1000000000, -1, 1 << 40}))}
+			},
+			chk: x19eqT(func(a []x19arg) (time.Time, error) { return time.Unix(a[0].i, a[1].i), nil })},
+		{name: "add", sig: "TI",
+			gen: func() []tengo.Object {
+				d := vf.Int64("d")
+				vf.Assume(d > -(1 << 50))
+				vf.Assume(d < (1 << 50))
+				return []tengo.Object{x19symT("t"), x19I(d)}
+			},
+			chk: x19eqT(func(a []x19arg) (time.Time, error) { return a[0].t.Add(time.Duration(a[1].i)), nil })},
+		{name: "add_date", sig: "TIII",
+			gen: func() []tengo.Object {
+				ymd := [][3]int64{{-1, 2, 3}, {0, 0, 0}, {1, 0, 0}, {0, 1, 0}, {0, 0, 1}, {0, 12, 31}, {5, -7, 400}}
+				c := ymd[vf.Choice("ymd", len(ymd))]
+				return []tengo.Object{x19concT("t"), x19I(c[0]), x19I(c[1]), x19I(c[2])}
+			},
+			chk: x19eqT(func(a []x19arg) (time.Time, error) { return a[0].t.AddDate(int(a[1].i), int(a[2].i), int(a[3].i)), nil }),
+			smp: func() []tengo.Object {
+				return []tengo.Object{x19T(time.Unix(1700000000, 5)), x19I(1), x19I(2), x19I(3)}
+			}},
+		// (Sub checks for overflow with a 64-bit multiply and divide of the
+		// difference, which stalls the solver on symbolic instants: pairs from
+		// the calendar boundary set, including pairs whose difference overflows)
+		{name: "sub", sig: "TT",
+			gen: func() []tengo.Object { return []tengo.Object{x19calT("t"), x19calT("u")} },
+			chk: x19eq(func(a []x19arg) (tengo.Object, error) { return x19I(int64(a[0].t.Sub(a[1].t))), nil })},
+		x19named("after", ttB(time.Time.After)),
+		x19named("before", ttB(time.Time.Before)),
+		x19named("time_year", x19tI(func(t time.Time) int64 { return int64(t.Year()) })),
+		// (month and day of a symbolic instant cost the solver hundreds of
+		// division queries per path: a calendar boundary set instead)
+		x19named("time_month", x19calI(func(t time.Time) int64 { return int64(t.Month()) })),
+		x19named("time_day", x19calI(func(t time.Time) int64 { return int64(t.Day()) })),
+		x19named("time_weekday", x19tI(func(t time.Time) int64 { return int64(t.Weekday()) })),
+		x19named("time_hour", x19tI(func(t time.Time) int64 { return int64(t.Hour()) })),
+		x19named("time_minute", x19tI(func(t time.Time) int64 { return int64(t.Minute()) })),
+		x19named("time_second", x19tI(func(t time.Time) int64 { return int64(t.Second()) })),
+		x19named("time_nanosecond", x19tI(func(t time.Time) int64 { return int64(t.Nanosecond()) })),
+		x19named("time_unix", x19tI(func(t time.Time) int64 { return t.Unix() })),
+		x19named("time_unix_nano", x19tI(func(t time.Time) int64 { return t.UnixNano() })),
+		{name: "time_format", sig: "TS",
+			gen: func() []tengo.Object { return []tengo.Object{x19concT("t"), x19S(x19pickS("layout", x19layouts))} },
+			chk: x19eq(func(a []x19arg) (tengo.Object, error) { return x19S(a[0].t.Format(a[1].s)), nil }),
+			smp: func() []tengo.Object {
+				return []tengo.Object{x19T(time.Unix(1700000000, 5)), x19S("2006-01-02T15:04:05Z07:00")}
+			}},
+		{name: "time_location", sig: "T", gen: x19genT1, chk: x19eq(func(a []x19arg) (tengo.Object, error) { return x19S(a[0].t.Location().String()), nil })},
+		// "formatted using the format string 2006-01-02 15:04:05.999999999 -0700 MST"
+		{name: "time_string", sig: "T", gen: func() []tengo.Object { return []tengo.Object{x19concT("t")} },
+			chk: x19eq(func(a []x19arg) (tengo.Object, error) {
+				return x19S(a[0].t.Format("2006-01-02 15:04:05.999999999 -0700 MST")), nil
+			})},
+		{name: "is_zero", sig: "T", gen: x19genT1, chk: x19eq(func(a []x19arg) (tengo.Object, error) { return x19B(a[0].t.IsZero()), nil })},
+		{name: "in_location", sig: "TS", loc: true,
+			gen: func() []tengo.Object { return []tengo.Object{x19symT("t"), x19S(x19pickS("zone", x19zones))} },
+			chk: x19eqT(func(a []x19arg) (time.Time, error) {
+				l, err := x19loc(a[1].s)
+				if err != nil {
+					return time.Time{}, err
+				}
+				return a[0].t.In(l), nil
+			}),
+			smp: func() []tengo.Object { return []tengo.Object{x19T(time.Unix(1700000000, 5)), x19S("UTC")} }},
+		{name: "to_local", sig: "T", gen: x19genT1, chk: x19eqT(func(a []x19arg) (time.Time, error) { return a[0].t.Local(), nil })},
+		{name: "to_utc", sig: "T", gen: x19genT1, chk: x19eqT(func(a []x19arg) (time.Time, error) { return a[0].t.UTC(), nil })},
+	}
+}
+
+// C19_Times: the clock-independent functions of module times against the
+// time.* function the documentation describes.
+func C19_Times() { x19value("times", x19timesTab()); vf.Reach("times") }
+
+func C19_TimesArgs() {
+	if vf.Choice("what", 2) == 0 {
+		x19args("times", x19timesTab())
+	} else {
+		x19coerced("times", x19timesTab())
+	}
+	vf.Reach("times-args")
+}
+
+// ---------------------------------------------------------------------------
+// enum (a source module: checked through scripts that import it)
+
+// x19kv is one element of the enumerated value: key (int index or string
+// key) and symbolic int value.
+type x19kv struct {
+	ik  int64
+	sk  string
+	val int64
+}
+
+func (e x19kv) key(isMap bool) tengo.Object {
+	if isMap {
+		return x19S(e.sk)
+	}
+	return x19I(e.ik)
+}
+
+// x19enumX builds the enumerated argument: arrays of 0..W()+1 symbolic ints
+// (mutable or immutable), maps of 0..2 symbolic ints (mutable or immutable),
+// or a value that is not enumerable.
+func x19enumX() (x tengo.Object, es []x19kv, isArr, isMap bool) {
+	shape := vf.Choice("x.shape", 5)
+	switch shape {
+	case 0, 1:
+		n := vf.Choice("x.len", W()+2)
+		var vs []tengo.Object
+		for k := 0; k < n; k++ {
+			v := vf.Int64("x" + strconv.Itoa(k))
+			es = append(es, x19kv{ik: int64(k), val: v})
+			vs = append(vs, x19I(v))
+		}
+		if shape == 0 {
+			return &tengo.Array{Value: vs}, es, true, false
+		}
+		return &tengo.ImmutableArray{Value: vs}, es, true, false
+	case 2, 3:
+		n := vf.Choice("x.len", 3)
+		m := map[string]tengo.Object{}
+		for k := 0; k < n; k++ {
+			v := vf.Int64("x" + strconv.Itoa(k))
+			es = append(es, x19kv{sk: mapKeys[k], val: v})
+			m[mapKeys[k]] = x19I(v)
+		}
+		if shape == 2 {
+			return &tengo.Map{Value: m}, es, false, true
+		}
+		return &tengo.ImmutableMap{Value: m}, es, false, true
+	}
+	others := []tengo.Object{x19I(5), x19S("ab"), tengo.UndefinedValue, x19Y([]byte("ab"))}
+	return others[vf.Choice("x.other", len(others))], nil, false, false
+}
+
+var x19enumFns = []string{"all", "any", "chunk", "at", "each", "filter", "find", "find_key", "map", "key", "value"}
+
+var x19enumSrc = map[string]string{
+	// the callback sees (key, value); pk selects a key-based predicate
+	"all":      `enum := import("enum"); out := enum.all(x, func(k, v) { return pk ? k != key : v > t })`,
+	"any":      `enum := import("enum"); out := enum.any(x, func(k, v) { return pk ? k == key : v > t })`,
+	"chunk":    `enum := import("enum"); out := enum.chunk(x, size)`,
+	"at":       `enum := import("enum"); out := enum.at(x, key)`,
+	"each":     `enum := import("enum"); ps := []; out := enum.each(x, func(k, v) { ps = append(ps, [k, v]) })`,
+	"filter":   `enum := import("enum"); out := enum.filter(x, func(k, v) { return pk ? k != key : v > t })`,
+	"find":     `enum := import("enum"); out := enum.find(x, func(k, v) { return pk ? k == key : v > t })`,
+	"find_key": `enum := import("enum"); out := enum.find_key(x, func(k, v) { return pk ? k == key : v > t })`,
+	"map":      `enum := import("enum"); out := enum.map(x, func(k, v) { return [k, v + t] })`,
+	"key":      `enum := import("enum"); out := enum.key(x, t)`,
+	"value":    `enum := import("enum"); out := enum.value(t, x)`,
+}
+
+func x19pair(k tengo.Object, v int64) tengo.Object {
+	return &tengo.Array{Value: []tengo.Object{k, x19I(v)}}
+}
+
+// x19perm: got is a permutation of want (map iteration order is unspecified).
+func x19perm(got, want []tengo.Object) bool {
+	if len(got) != len(want) {
+		return false
+	}
+	used := make([]bool, len(want))
+	for _, g := range got {
+		found := false
+		for k, w := range want {
+			if !used[k] && Same(g, w) {
+				used[k], found = true, true
+				break
+			}
+		}
+		if !found {
+			return false
+		}
+	}
+	return true
+}
+
+// C19_Enum: every documented function of module enum, on arrays and maps of
+// symbolic ints with Tengo callbacks, against reference implementations
+// written from docs/stdlib-enum.md.
+func C19_Enum() {
+	fn := x19enumFns[vf.Choice("fn", len(x19enumFns))]
+	n := "enum." + fn
+	x, es, isArr, isMap := x19enumX()
+	enumerable := isArr || isMap
+	t := vf.Int64("t")
+	pk := false
+	var key tengo.Object = x19I(1)
+	size := 1
+	switch fn {
+	case "all", "any", "filter", "find", "find_key":
+		pk = vf.Choice("pk", 2) == 1
+		if pk && isMap {
+			key = x19S("b")
+		}
+		if pk && !enumerable {
+			vf.Stop()
+		}
+	case "at":
+		keys := []tengo.Object{x19I(-1), x19I(0), x19I(1), x19I(int64(len(es))), x19S("a"), x19S("c"), x19S("zz"), tengo.UndefinedValue}
+		key = keys[vf.Choice("key", len(keys))]
+	case "chunk":
+		size = 1 + vf.Choice("size", 3)
+	}
+	pred := func(e x19kv) bool { // the callbacks above, in Go
+		if pk {
+			same := Same(e.key(isMap), key)
+			if fn == "all" || fn == "filter" {
+				return !same
+			}
+			return same
+		}
+		return e.val > t
+	}
+
+	s := tengo.NewScript([]byte(x19enumSrc[fn]))
+	s.SetImports(stdlib.GetModuleMap("enum"))
+	_ = s.Add("x", x)
+	_ = s.Add("t", t)
+	_ = s.Add("pk", pk)
+	_ = s.Add("key", key)
+	_ = s.Add("size", size)
+	c, err := s.Compile()
+	vf.Assert(err == nil, n+": script importing enum compiles")
+	rerr, panicked, _ := RunGuarded(c)
+	vf.Assert(!panicked && rerr == nil, n+": script runs without a run-time error")
+	out := c.Get("out").Object()
+	undef := tengo.Object(tengo.UndefinedValue)
+
+	switch fn {
+	case "all", "any":
+		if !enumerable {
+			vf.Assert(out == undef, n+": undefined when x is not enumerable")
+			break
+		}
+		want := fn == "all"
+		for _, e := range es {
+			if fn == "all" {
+				want = want && pred(e)
+			} else {
+				want = want || pred(e)
+			}
+		}
+		vf.Assert(out == x19B(want), n+": the documented truth value")
+	case "chunk":
+		if !isArr {
+			vf.Assert(out == undef, n+": undefined when x is not an array")
+			break
+		}
+		var want []tengo.Object
+		for lo := 0; lo < len(es); lo += size {
+			var ch []tengo.Object
+			for k := lo; k < lo+size && k < len(es); k++ {
+				ch = append(ch, x19I(es[k].val))
+			}
+			want = append(want, &tengo.Array{Value: ch})
+		}
+		got, ok := out.(*tengo.Array)
+		vf.Assert(ok, n+": result is an array")
+		vf.Assert(len(got.Value) == len(want), n+": number of groups")
+		for k := range want {
+			// (a group may be an array or, for an immutable x, an immutable array: only the elements are documented)
+			var elems []tengo.Object
+			switch g := got.Value[k].(type) {
+			case *tengo.Array:
+				elems = g.Value
+			case *tengo.ImmutableArray:
+				elems = g.Value
+			default:
+				vf.Fail(n + ": each group is an array")
+			}
+			vf.Assert(sameList(elems, want[k].(*tengo.Array).Value), n+": groups of the given size in order, the last one holding the rest")
+		}
+	case "at":
+		var want tengo.Object = tengo.UndefinedValue
+		if isArr {
+			if i, ok := key.(*tengo.Int); ok && i.Value >= 0 && i.Value < int64(len(es)) {
+				want = x19I(es[i.Value].val)
+			}
+		} else if isMap {
+			if sk, ok := key.(*tengo.String); ok {
+				for _, e := range es {
+					if e.sk == sk.Value {
+						want = x19I(e.val)
+					}
+				}
+			}
+		}
+		vf.Assert(Same(out, want), n+": the element at the index / key, undefined otherwise")
+	case "each":
+		vf.Assert(out == undef, n+": returns undefined")
+		ps := c.Get("ps").Object().(*tengo.Array).Value
+		var want []tengo.Object
+		for _, e := range es {
+			want = append(want, x19pair(e.key(isMap), e.val))
+		}
+		if isMap {
+			vf.Assert(x19perm(ps, want), n+": fn is invoked once per element with (key, value)")
+		} else {
+			vf.Assert(sameList(ps, want), n+": fn is invoked once per element, in order, with (index, value)")
+		}
+	case "filter":
+		if !isArr {
+			vf.Assert(out == undef, n+": undefined when x is not an array")
+			break
+		}
+		var want []tengo.Object
+		for _, e := range es {
+			if pred(e) {
+				want = append(want, x19I(e.val))
+			}
+		}
+		got, ok := out.(*tengo.Array)
+		vf.Assert(ok && sameList(got.Value, want), n+": the elements fn is truthy for, in order")
+	case "find", "find_key":
+		if !enumerable {
+			vf.Assert(out == undef, n+": undefined when x is not enumerable")
+			break
+		}
+		// arrays: the first match; maps: some match (iteration order unspecified)
+		anyMatch, okMatch := false, false
+		for _, e := range es {
+			if !pred(e) {
+				continue
+			}
+			var w tengo.Object = x19I(e.val)
+			if fn == "find_key" {
+				w = e.key(isMap)
+			}
+			if isArr && anyMatch {
+				break
+			}
+			anyMatch = true
+			if Same(out, w) {
+				okMatch = true
+			}
+		}
+		if anyMatch {
+			vf.Assert(okMatch, n+": the first element fn is truthy for")
+		} else {
+			vf.Assert(out == undef, n+": undefined when fn is truthy for no element")
+		}
+	case "map":
+		if !enumerable {
+			vf.Assert(out == undef, n+": undefined when x is not enumerable")
+			break
+		}
+		var want []tengo.Object
+		for _, e := range es {
+			want = append(want, x19pair(e.key(isMap), e.val+t))
+		}
+		got, ok := out.(*tengo.Array)
+		vf.Assert(ok, n+": result is an array")
+		if isMap {
+			vf.Assert(x19perm(got.Value, want), n+": fn(key, value) of every element")
+		} else {
+			vf.Assert(sameList(got.Value, want), n+": fn(index, value) of every element, in order")
+		}
+	case "key":
+		vf.Assert(Same(out, x), n+": returns its first argument")
+	case "value":
+		vf.Assert(Same(out, x), n+": returns its second argument")
+	}
+	vf.Reach("enum")
 }
